@@ -6,7 +6,7 @@ import Driver.Common
 ops (written by `harness/hcore/src/bin/admission.rs` after executing them on the real code):
   `case <progs>`               → `ok at=<p0>,<p1>,…`           (threads `;`, ops `,`, `s`/`sf`/`s[…]`/`d`/`b`)
   `step <tid> <point> [id=i]`  → `<c> <m> <n> st=<status> at=<next point|done>[ ret <kind> <id> <res>]`
-  `rx run|stop|kill`           → `handled=<ids|-> exit=<reason|-> st=<status>`
+  `rx run|stop|kill`           → `handled=<ids|-> exit=<reason|-> st=<status> self=<id:res,…|->`
   `end <progs> <signature>`    → `word=<c> <m> <n> st=<status> handled=<ids|-> sup=<events> alive=<0|1>`
 
 One `step` line = one `Admission.step g (.t tid)`. `rx run` = the receiver dequeues until it blocks
@@ -28,12 +28,15 @@ partial def parseOps (cs : List Char) : List Op × List Char :=
     let (bf, rest) := match rest with
       | 'f' :: r => (true, r)
       | r => (false, r)
+    let (rs, rest) := match rest with
+      | '!' :: r => (true, r)
+      | r => (false, r)
     let (nested, rest) := match rest with
       | '[' :: r =>
         let (n, r') := parseOps r
         (n, match r' with | ']' :: r'' => r'' | r'' => r'')
       | r => ([], r)
-    more (Op.send nested bf) rest
+    more (Op.send nested bf rs) rest
   | 'd' :: rest => more .drain rest
   | 'b' :: rest => more .bad rest
   | '-' :: rest => ([], rest)
@@ -43,6 +46,12 @@ where
     match rest with
     | ',' :: r => let (l, r') := parseOps r; (op :: l, r')
     | r => ([op], r)
+
+/-- number of `send`s (at any nesting depth) whose handling makes the actor send to itself -/
+partial def countResend : List Op → Nat
+  | [] => 0
+  | .send nested _ rs :: l => (if rs then 1 else 0) + countResend nested + countResend l
+  | _ :: l => countResend l
 
 def parseProgs (s : String) : List (List Op) :=
   (s.splitOn ";").map (fun t => (parseOps t.toList).1)
@@ -64,8 +73,21 @@ def threadAt (g : G) (i : Nat) : String :=
 
 def showWord (w : Word) : String := s!"{b01 w.closed} {b01 w.marker} {w.count}"
 
-/-- the receiver dequeues until it blocks (fuel = queue length + 1) -/
-def recvAll (g : G) : G := (List.replicate (g.sh.queue.length + 1) Tid.recv).foldl step g
+/-- The receiver dequeues until it blocks. When it handles a flagged message the handler sends
+one message to its own actor: handler thread `workers + nextH` runs one complete send. -/
+def recvAll (g : G) (workers : Nat) (flagged : List Nat) (nextH : Nat) : Nat → G × Nat
+  | 0 => (g, nextH)
+  | fuel + 1 =>
+    let g' := step g .recv
+    if g'.sh.handled.length == g.sh.handled.length then (g', nextH)
+    else
+      match g'.sh.handled.getLast? with
+      | some id =>
+        if flagged.contains id then
+          let g'' := (List.replicate 12 (Tid.t (workers + nextH))).foldl step g'
+          recvAll g'' workers flagged (nextH + 1) fuel
+        else recvAll g' workers flagged nextH fuel
+      | none => recvAll g' workers flagged nextH fuel
 
 def exitSeq : List Tid := [.setStatus stStopping, .rxClose, .rxFlush, .setStatus stStopped]
 
@@ -98,6 +120,12 @@ structure St where
   g : G := {}
   c : Case := {}
   exitReason : String := "-"      -- model-side: reason of the receiver's exit
+  /-- number of worker threads; the threads after them run the handler's self-sends -/
+  workers : Nat := 0
+  /-- ids of the messages whose handling makes the actor send to itself -/
+  flagged : List Nat := []
+  /-- next unused handler thread -/
+  nextH : Nat := 0
   /-- model and implementation already disagreed in this case: the rest of the case is not
   compared any more (one DIFF per case), the oracle still judges the implementation -/
   diverged : Bool := false
@@ -159,9 +187,13 @@ def step1 (st : St) (op impl : String) : St × StepOut :=
   let st := { st with c := c }
   match words op with
   | ["case", progs] =>
-    let g := init (parseProgs progs)
-    let ats := ",".intercalate ((List.range g.threads.length).map (threadAt g))
-    ({ g := g, c := { line := 0 }, exitReason := "-", diverged := false }, { model := s!"ok at={ats}" })
+    let ps := parseProgs progs
+    -- one extra thread per flagged send: it performs the handler's send to its own actor
+    let h := (ps.map countResend).foldl (· + ·) 0
+    let g := init (ps ++ List.replicate h [Op.send [] false false])
+    let ats := ",".intercalate ((List.range ps.length).map (threadAt g))
+    ({ g := g, c := { line := 0 }, exitReason := "-", diverged := false, workers := ps.length },
+      { model := s!"ok at={ats}" })
   | "step" :: tid :: point :: opt =>
     match tid.toNat? with
     | none => (st, { model := "bad-op" })
@@ -171,6 +203,14 @@ def step1 (st : St) (op impl : String) : St × StepOut :=
         | some (f :: _) => some f.id
         | _ => none
       let g' := _root_.Admission.step st.g (.t i)
+      let flagged := match st.g.threads[i]? with
+        | some (f :: _) =>
+          (match f.pc, f.ops with
+           | .run, .send _ _ true :: _ => st.g.sh.nextId :: st.flagged
+           | .boxing, .send _ _ true :: _ => st.g.sh.nextId :: st.flagged
+           | _, _ => st.flagged)
+        | _ => st.flagged
+      let st := { st with flagged := flagged }
       let newRets := g'.sh.rets.drop st.g.sh.rets.length
       let retS := String.join (newRets.map (fun r => " " ++ showRet r))
       let idOk := match opt with
@@ -191,7 +231,7 @@ def step1 (st : St) (op impl : String) : St × StepOut :=
                     | none => c)
           | _ => c
         else c
-      let inflight := (List.range st.g.threads.length).any (fun k =>
+      let inflight := (List.range st.workers).any (fun k =>
         k != i && !(["op.start", "done"].contains (threadAt st.g k)))
       let c := if point == "drain.close" then { c with drainClosed := true, raced := c.raced || inflight } else c
       let c := (parseRets iw).foldl (fun c (k, id, r) =>
@@ -205,17 +245,19 @@ def step1 (st : St) (op impl : String) : St × StepOut :=
   | ["rx", what] =>
     let alive := st.g.sh.rxOpen
     let g0 := st.g
-    let (g1, reason) :=
-      if !alive then (g0, "-")
+    let (g1, reason, nextH) :=
+      if !alive then (g0, "-", st.nextH)
       else if what == "run" then
-        let g := recvAll g0
-        if g.sh.rxStopped then (exitSeq.foldl _root_.Admission.step g, "Drained") else (g, "-")
+        let (g, nh) := recvAll g0 st.workers st.flagged st.nextH (2 * g0.sh.queue.length + 2 * st.flagged.length + 2)
+        if g.sh.rxStopped then (exitSeq.foldl _root_.Admission.step g, "Drained", nh) else (g, "-", nh)
       else
         let g := _root_.Admission.step g0 .rxStop
-        (exitSeq.foldl _root_.Admission.step g, if what == "kill" then "killed" else "-")
+        (exitSeq.foldl _root_.Admission.step g, if what == "kill" then "killed" else "-", st.nextH)
     let exited := alive && !g1.sh.rxOpen
     let newH := g1.sh.handled.drop g0.sh.handled.length
-    let model := s!"handled={showNats newH} exit={if exited then reason else "-"} st={g1.sh.status}"
+    let selfRets := g1.sh.rets.drop g0.sh.rets.length
+    let selfS := if selfRets.isEmpty then "-" else ",".intercalate (selfRets.map (fun r => s!"{r.id}:{showRes r.res}"))
+    let model := s!"handled={showNats newH} exit={if exited then reason else "-"} st={g1.sh.status} self={selfS}"
     -- implementation side
     let iw := words impl
     let implH := (iw.findSome? (parseKV · "handled")).bind natList? |>.getD []
@@ -224,7 +266,18 @@ def step1 (st : St) (op impl : String) : St × StepOut :=
     let c := { c with handled := c.handled ++ implH,
                       exits := if implExit == "-" then c.exits else c.exits ++ [implExit],
                       otherExit := c.otherExit || (what != "run") }
-    ({ st with g := g1, c := c, exitReason := if exited then reason else st.exitReason }, { model := model })
+    -- the handler's sends to its own actor: complete sends that start and return on this line
+    let implSelf : List (Nat × String) := match iw.findSome? (parseKV · "self") with
+      | some "-" => []
+      | some v => (v.splitOn ",").filterMap (fun (e : String) => match e.splitOn ":" with
+          | [i, r] => (String.toNat? i).map (fun i => (i, r))
+          | _ => none)
+      | none => []
+    let c : Case := implSelf.foldl (fun (c : Case) (x : Nat × String) =>
+      let (id, r) := x
+      { c with rets := c.rets ++ [{ kind := "send", id := id, res := r, late := c.closed, startLine := c.line, retLine := c.line }],
+               raced := c.raced || c.drainClosed }) c
+    ({ st with g := g1, c := c, exitReason := if exited then reason else st.exitReason, nextH := nextH }, { model := model })
   | "end" :: _ =>
     let g := st.g
     let sup := if g.sh.rxOpen then "Started" else s!"Started,Terminated:{st.exitReason}"
